@@ -42,3 +42,20 @@ Example C03_ex :
   let c := mkCfg 3 1 (Some 1) false true true in
   main (run c (init c [[0;1;2];[3;4;5];[6]]) (rr 3 60)) = MDone.
 Proof. vm_compute. reflexivity. Qed.
+
+(* (4) the failure path (Model/Fail.v: user functions that raise, block beyond a timeout or kill their process; the
+   results handler, death watch, timeout handler and main's _handle_exception / terminate, with the waits of the
+   dispatch loop and the queue-draining loop of terminate() read off the source): while main has neither returned
+   nor raised some actor can move, and a fair schedule ends with main returned or raised -- a failing call
+   terminates too *)
+From Mpv Require Import GenAsync GenStruct GenObserve OrderHist Apply Fail FailProofs.
+Theorem C03_failing_call_terminates :
+  forall scripts, Forall (fun t => timed_todo t = true) scripts ->
+  running_main (fmn (frun (finit scripts) (frr (List.length scripts) (S (FM (finit scripts)))))) = false.
+Proof. exact failing_call_terminates. Qed.
+Print Assumptions C03_failing_call_terminates.
+
+Theorem C03_failure_path_facts :
+  dispatch_waits_stop_on_exception = true /\ terminate_drains_queues_completely = true /\ handle_exception_waits_for_named_job = true.
+Proof. exact (conj waits_spec (conj drains_spec handle_exception_spec)). Qed.
+Print Assumptions C03_failure_path_facts.
